@@ -82,7 +82,7 @@ MAP = [
     (U, 'UGrid.bounds', ['Ems.polysBounds'], ['C06']),
     (UT, 'make_polygons_with_holes', ['Ems.allSomeL'], ['C02', 'C06']),
     (B, 'Convention.polygons', ['Ems.keepValid', 'Ems.invalidDropped'], ['C02', 'C06']),
-    (B, 'Convention.mask', ['Ems.polyMask'], ['C06']),
+    (B, 'Convention.mask', ['Ems.polyMask', 'Ems.ConvCache.read', 'Ems.observeAfter'], ['C06']),
     (B, 'Convention.bounds', ['Ems.polysBounds'], ['C06']),
     # ---- point lookup and selection (C04, C05)
     (B, 'Convention.get_index_for_point', ['Ems.getIndexForPoint', 'Ems.firstHit', 'Ems.hitSet'], ['C04', 'C05']),
